@@ -51,6 +51,21 @@ case "$ID" in
       echo "BUILD FAILED (instrumented):" >&2; cat $BINDIR/build.err >&2; exit 2; }
     if [ "$ID" = C11 ]; then build_plain $BINDIR/check; export VERIF_PLAIN_BIN="$VERIF/$BINDIR/check"; fi
     ;;
+  C07)
+    # the plain build runs the check; one run of each batch (the clock phase) is
+    # handed to the instrumented build, whose only clock is the simulated one
+    mkdir -p "${VERIF_SCRATCH:-/root/scratch}" 2>/dev/null
+    SCR="$(mktemp -d "${VERIF_SCRATCH:-/root/scratch}/instr.XXXXXX" 2>/dev/null || mktemp -d)"
+    CGO_ENABLED=0 go build -o $BINDIR/instr ./cmd/instr 2> $BINDIR/build.err || { echo "BUILD FAILED (cmd/instr):" >&2; cat $BINDIR/build.err >&2; exit 2; }
+    $BINDIR/instr -src "$REPO" -dst "$SCR/mq" -modfile "$SCR/go.mod" -verif "$VERIF" || { echo "instrumentation failed" >&2; exit 2; }
+    ( cd "$SCR/mq" && CGO_ENABLED=0 go test -tags verif -vet=off -count=1 . > "$SCR/selftest.log" 2>&1 ) || {
+      echo "instrumented copy FAILS the library's own tests (exit 2, no verdict):" >&2; tail -20 "$SCR/selftest.log" >&2; exit 2; }
+    CGO_ENABLED=0 go build -modfile="$SCR/go.mod" -tags "verif verifinstr" -o "$BINDIR/check-instr" ./cmd/check 2> $BINDIR/build.err || {
+      echo "BUILD FAILED (instrumented):" >&2; cat $BINDIR/build.err >&2; exit 2; }
+    export VERIF_INSTR_BIN="$VERIF/$BINDIR/check-instr"
+    BIN="$BINDIR/check"
+    build_plain "$BIN"
+    ;;
   C13)
     BIN="$BINDIR/check-race"
     CGO_ENABLED=1 go build $MODFLAG -race -tags verif -o "$BIN" ./cmd/check 2> $BINDIR/build.err || {
